@@ -15,7 +15,8 @@ LEVEL = "exploration"
 EXHAUSTIVE = True
 RULE = ("E1: complete product of small alphabets (types x codes x mids x token lengths x option lists x payloads) "
         "for encode/decode, and complete sets of byte strings (short strings over a structural byte alphabet; every "
-        "truncation / single-byte substitution / insertion / deletion of seed datagrams) for decode. "
+        "truncation / single-byte substitution / insertion / deletion of seed datagrams) for decode; whole datagrams of 64..4096 bytes "
+        "through the real recvmsg transport over a fake socket that cuts what does not fit the buffer it is handed. "
         "A case is non-trivial+distinct by its signature (direction, outcome class, option-format multiset, "
         "extended-field classes hit, length class).")
 ASSUMPTIONS = [
